@@ -654,6 +654,14 @@ void QXmppOutgoingClient::handleStream(const QDomElement &streamElement)
         // no version specified, signals XMPP Version < 1.0.
         // switch to old auth mechanism if enabled
         if (d->streamVersion.isEmpty() && configuration().useNonSASLAuthentication()) {
+            // a pre-XMPP-1.0 stream has no features and thus no STARTTLS: never start the
+            // legacy authentication on an unencrypted link if TLS is required
+            if (configuration().streamSecurityMode() == QXmppConfiguration::TLSRequired && !socket()->isEncrypted()) {
+                setError(u"TLS is required, but the server does not support XMPP 1.0 stream negotiation (STARTTLS)"_s,
+                         QAbstractSocket::SslHandshakeFailedError);
+                disconnectFromHost();
+                return;
+            }
             startNonSaslAuth();
         }
     }
